@@ -59,6 +59,12 @@ EXPLANATION += (
     'of nested dicts and of key sequences inserted by loops is tracked.'
 )
 
+EXPLANATION += (
+    ' Round 3: numeric accumulation in a labelled visiting order (also '
+    'inside a callee that accumulates into its argument, also through '
+    'lists of lists) yields a labelled value.'
+)
+
 RULE_TEXT = (
     "one obligation per (sink site, set of source labels) finding, per "
     "benign source used, per RNG construction, per merge loop, per worker "
